@@ -20,6 +20,11 @@ RULE = (
     'report meeting its declared inputs). Non-trivial: some reply reports a '
     'strict non-empty subset of its values new while the unit has a '
     'dependent that reads none of them. Distinct = SHA-1 of case JSON.'
+    ' Part overtake: a scripted skeleton along a generated dependency edge '
+    '(the dependent is released, its upstream runs again and reports new va'
+    'lues while it is in flight, then its first result arrives with new val'
+    'ues) with generated operations in between. Algorithms may read back th'
+    'eir own output. '
 )
 ASSUMPTIONS = [
     'minimality and completeness are judged per (algorithm, target) unit',
